@@ -24,6 +24,9 @@ def Start.it (x : Start) : It :=
 inductive HOp
   | start (x : Start)
   | cont
+  | config (set : Settings)       -- yr_scanner_set_flags / set_timeout / set_callback: any new settings
+  | proc (mem : Option Start)     -- yr_scanner_scan_proc: `none` = the process cannot be attached; otherwise the iterator over
+                                  -- its memory (any blocks, any behaviour) and the callback's reactions
 
 structure HSt where
   sc : Sc
@@ -50,6 +53,19 @@ def stepH (P : Params) (v : Variant) (st : HSt) : HOp → HSt × Option Trace
       let o := scanCall P v st.cb st.stack st.sc st.it st.w
       (st.after o st.cb st.stack, some (o.msgs, o.rc))
     else (st, none)
+  | .config set => ({ st with sc := { st.sc with set := set } }, none)
+  | .proc none => (st, some ([], .couldNotAttach))
+  | .proc (some x) =>
+    -- scanner.c :815-823: save flags, set SCAN_FLAGS_PROCESS_MEMORY, scan, restore flags
+    let s1 : Sc := { st.sc with set := { st.sc.set with processMemory := true } }
+    let o := scanCall P v x.cb x.stack s1 x.it { st.w with nmsg := 0 }
+    (st.after { o with sc := { o.sc with set := st.sc.set } } x.cb x.stack, some (o.msgs, o.rc))
+
+/-- the settings in force after a history: the last `config`, else the initial ones -/
+def settingsAfter (set : Settings) : List HOp → Settings
+  | [] => set
+  | .config s :: ops => settingsAfter s ops
+  | _ :: ops => settingsAfter set ops
 
 def runH (P : Params) (v : Variant) : HSt → List HOp → HSt
   | st, [] => st
